@@ -1,6 +1,8 @@
 #!/bin/bash
 # seedall.sh [names…] — re-applies every kept seeded change to /repo, runs the
 # quick check(s) of its property, restores /repo, and rewrites seeded/SUMMARY.md.
+# runs with a seeded change applied write evidence/<id>.seeded.json, never the committed evidence file
+export VERIF_EVIDENCE_SUFFIX=.seeded
 cd /verif
 names=${@:-$(ls seeded | grep -v SUMMARY)}
 for n in $names; do
